@@ -132,8 +132,8 @@ P("C08", level_text="Theorem: for every raw-free document within the 64-bit/32-b
 P("C09", level_text="Theorems: every serialized document is accepted and decoded to the value it encodes with exact consumption (any trailing bytes), 0xC1 gives InvalidInput, a non-string "
   "key gives InvalidInput, the empty input gives EmptyInput, proper prefixes of scalars give IncompleteInput. The model agrees with deserializeMsgPack on values encoded by an independent "
   "encoder with arbitrary legal widths, on all their proper prefixes and on corruptions; the implementation's document is checked against the encoded value.",
-  level_note="non-minimal encodings and prefixes of containers are covered by the correspondence and the oracle, not by the theorem; USE_DOUBLE=0 only in the thorough tier",
-  suites=lambda tier: [S.MpDeSuite(cfg=DEF)] + ([S.MpDeSuite(cfg={"USE_DOUBLE": 0}, n=30000)] if tier == "thorough" else []),
+  level_note="non-minimal encodings and prefixes of containers are covered by the correspondence and the oracle, not by the theorem; USE_DOUBLE=0 is modelled as rounding every stored double to binary32",
+  suites=lambda tier: [S.MpDeSuite(cfg=DEF), S.MpDeSuite(cfg={"USE_DOUBLE": 0}, n=1200 if tier == "quick" else 60000)],
   partial=["prefix_incomplete for strings/containers"])
 
 P("C10", level_text="Theorems for every byte: the hex-digit class of \\u, the set of escape letters, the exact characterisation of the literals that become integers; TooDeep is returned "
